@@ -33,17 +33,20 @@ def main():
     demos = [f for f in os.listdir(src) if f.endswith(".rs")]
     assert demos, "no demo"
     log = {}
-    os.makedirs(os.path.join(WT, crate, "examples"), exist_ok=True)
+    kind = sys.argv[sys.argv.index("--kind") + 1] if "--kind" in sys.argv else "example"
+    sub = "tests" if kind == "test" else "examples"
+    os.makedirs(os.path.join(WT, crate, sub), exist_ok=True)
     feat = (" --features " + sys.argv[sys.argv.index("--features") + 1]) if "--features" in sys.argv else ""
     for d in demos:
-        shutil.copy(os.path.join(src, d), os.path.join(WT, crate, "examples", d))
+        shutil.copy(os.path.join(src, d), os.path.join(WT, crate, sub, d))
     names = [d[:-3] for d in demos]
 
     def run_demos(tag):
         res = {}
         for n in names:
-            rc, out = sh("cargo run --offline -q --example %s%s 2>&1 | tail -15" % (n, feat), cwd=os.path.join(WT, crate), timeout=900)
-            rc2, out2 = sh("cargo run --offline -q --example %s%s >/dev/null 2>&1; echo rc=$?" % (n, feat), cwd=os.path.join(WT, crate), timeout=900)
+            run = ("cargo test --offline -q --test %s%s" if kind == "test" else "cargo run --offline -q --example %s%s") % (n, feat)
+            rc, out = sh(run + " 2>&1 | tail -15", cwd=os.path.join(WT, crate), timeout=900)
+            rc2, out2 = sh(run + " >/dev/null 2>&1; echo rc=$?", cwd=os.path.join(WT, crate), timeout=900)
             m = re.search(r"rc=(\d+)", out2)
             res[n] = {"rc": int(m.group(1)) if m else rc2, "tail": out[-600:]}
         log[tag] = res
@@ -56,7 +59,13 @@ def main():
     ok_clean = all(v["rc"] == 0 for v in clean.values())
     rc, out = sh("git apply --whitespace=nowarn %s" % os.path.join(src, "patch.diff"), cwd=WT)
     assert rc == 0, "patch does not apply: " + out
+    if kind == "test":   # an integration test file would add to the 47: keep it out of the pinned run
+        for d in demos:
+            os.rename(os.path.join(WT, crate, sub, d), os.path.join(WT, d + ".aside"))
     rc, out = sh("cargo nextest run --workspace --no-fail-fast --offline 2>&1 | tail -4", cwd=WT)
+    if kind == "test":
+        for d in demos:
+            os.rename(os.path.join(WT, d + ".aside"), os.path.join(WT, crate, sub, d))
     m = re.search(r"(\d+) tests run: (\d+) passed", out)
     tests_ok = bool(m) and m.group(1) == m.group(2) == "47"
     log["tests_with_change"] = out[-300:]
@@ -85,7 +94,8 @@ def main():
             "demo_on_clean_tree": {k: v["rc"] for k, v in clean.items()},
             "tests_with_change": "47 passed",
             "demo_with_change": {k: v["rc"] for k, v in changed.items()},
-            "commands": ["cd %s && cargo run --offline --example <demo>   (clean tree: exit 0)" % crate,
+            "demo_kind": kind,
+            "commands": ["cd %s && cargo run --offline --example <demo>   (clean tree: exit 0; for demo_kind=test: copy to tests/ and cargo test --test <demo>)" % crate,
                          "git apply patch.diff && cargo nextest run --workspace --no-fail-fast --offline   (47 passed)",
                          "cd %s && cargo run --offline --example <demo>   (changed tree: non-zero exit)" % crate],
             "demo_output_with_change": {k: v["tail"][-300:] for k, v in changed.items()},
